@@ -318,6 +318,59 @@ fn counterparty_claim_probe(a: &mut Vec<i128>) -> String {
 	res
 }
 
+/// holder_claim_probe <offered_by_us 0/1> <preimage_known 0/1>
+/// Node 1's OWN current commitment, holding one pending 3 000 sat HTLC (offered by node 1, or received by it - with
+/// or without node 1 knowing the preimage), confirms on node 1's chain. Output: 1 if node 1's monitor then tracks a
+/// claim for that HTLC's output; then 1 if that claim's counterparty-spendable height is the confirmation height,
+/// 0 if it is the HTLC's CLTV expiry, 9 otherwise / no claim.
+fn holder_claim_probe(a: &mut Vec<i128>) -> String {
+	use lightning::chain::channelmonitor::Balance;
+	let (offered, known) = (a[0] != 0, a[1] != 0);
+	let chanmon_cfgs = create_chanmon_cfgs(2);
+	let node_cfgs = create_node_cfgs(2, &chanmon_cfgs);
+	let node_chanmgrs = create_node_chanmgrs(2, &node_cfgs, &[None, None]);
+	let nodes = create_network(2, &node_cfgs, &node_chanmgrs);
+	*nodes[0].connect_style.borrow_mut() = ConnectStyle::FullBlockViaListen;
+	*nodes[1].connect_style.borrow_mut() = ConnectStyle::FullBlockViaListen;
+	let chan = create_announced_chan_between_nodes(&nodes, 0, 1);
+	let chan_id = chan.2;
+	send_payment(&nodes[0], &[&nodes[1]], 10_000_000);
+	let (src, dst) = if offered { (1, 0) } else { (0, 1) };
+	let (preimage, _, _, _) = route_payment(&nodes[src], &[&nodes[dst]], 3_000_000);
+	let cltv = {
+		let mon = nodes[src].chain_monitor.chain_monitor.get_monitor(chan_id).unwrap();
+		let mut c = 0u32;
+		for b in mon.get_claimable_balances() {
+			if let Balance::MaybeTimeoutClaimableHTLC { claimable_height, .. } = b {
+				c = claimable_height;
+			}
+		}
+		c
+	};
+	if !offered && known {
+		nodes[1].node.claim_funds(preimage);
+		let _ = nodes[1].node.get_and_clear_pending_msg_events(); // never delivered
+		let _ = nodes[1].node.get_and_clear_pending_events();
+	}
+	let commitment = {
+		let mon = nodes[1].chain_monitor.chain_monitor.get_monitor(chan_id).unwrap();
+		mon.unsafe_get_latest_holder_commitment_txn(&nodes[1].logger)[0].clone()
+	};
+	let vout = commitment.output.iter().position(|o| o.value.to_sat() == 3_000).expect("HTLC output") as u32;
+	mine_transaction(&nodes[1], &commitment);
+	let conf = nodes[1].best_block_info().1;
+	let txid = commitment.compute_txid();
+	let mon = nodes[1].chain_monitor.chain_monitor.get_monitor(chan_id).unwrap();
+	let claims = lightning::chain::channelmonitor::verif_hooks::tracked_claims(&mon);
+	let res = match claims.iter().find(|(t, o, _, _)| *t == txid && *o == vout) {
+		Some((_, _, h, _)) => format!("1 {}", if *h == conf { 1 } else if *h == cltv { 0 } else { 9 }),
+		None => "0 9".to_string(),
+	};
+	drop(mon);
+	core::mem::forget(nodes);
+	res
+}
+
 fn main() {
 	if std::env::var("ORACLE_DEBUG").is_err() { std::panic::set_hook(Box::new(|_| {})); }
 	let stdin = std::io::stdin();
@@ -339,6 +392,7 @@ fn main() {
 			"htlc_timeout_probe" => htlc_timeout_probe(&mut args),
 			"revoked_htlc_claim_probe" => revoked_htlc_claim_probe(&mut args),
 			"counterparty_claim_probe" => counterparty_claim_probe(&mut args),
+			"holder_claim_probe" => holder_claim_probe(&mut args),
 			_ => format!("error unknown function {}", name),
 		}));
 		match r {
